@@ -65,7 +65,7 @@ class Doc:
     def emit(self, **kw):
         kw['id'] = len(self.out) + 1
         for k, v in dict(elem='', variant='', kind='', mut='', inp=EMPTY, outp=EMPTY, res=OKRES, res2=OKRES, res3=OKRES,
-                         same23=True, t0='', t1='', t2='', chk0=True, chk1=True, a0=[], a1=[], target='', tw=0).items():
+                         same23=True, t0='', t1='', t2='', chk0=True, chk1=True, a0=[], a1=[], target='', tw=0, inside=[], alone=[]).items():
             kw.setdefault(k, v)
         self.out.append(kw)
         return kw['id']
@@ -257,23 +257,117 @@ class Doc:
                                chk1=bool(c.xsd_check) if r['ok'] else False, a0=a0, a1=a1)
                 if not r['ok']:
                     continue
-                # mutate the copy, then the original: the other tree must not change
-                for target, x, other in (('copy', c, e), ('orig', e, c)):
-                    tb = self.verdict(other)
-                    muts = []
-                    if J['elemkind'][name] == 'complex' and J['attrs'][t]:
-                        an, at, rq = J['attrs'][t][0]
-                        py = an.split(':')[-1].replace('-', '_')
-                        muts.append(('set-attribute', lambda x=x, py=py, at=at: setattr(x, py, F.value(at))))
-                        muts.append(('unset-attribute', lambda x=x, py=py: setattr(x, py, None)))
-                    ch = x.get_children(ordered=False)
-                    if ch:
-                        muts.append(('remove-child', lambda x=x, ch=ch: x.remove(ch[0])))
-                        muts.append(('re-add-child', lambda x=x, ch=ch: x.add_child(F.mk(ch[0].name))))
-                    for md, fn in muts:
+                # every mutation gets a FRESH original / copy pair, so that an earlier mutation cannot mask a shared
+                # structure (e.g. a set re-binding a dict that an unset would have edited in place)
+                if desc.split(':')[0] not in ('plain', 'kw', 'dot'):
+                    continue
+                for target in ('copy', 'orig'):
+                    for md in ('unset-present-attribute', 'overwrite-present-attribute', 'set-new-attribute', 'set-value',
+                               'remove-child', 'add-child', 'child-set-attribute', 'child-set-value', 'grandchild-remove'):
+                        rb, e2 = call(b)
+                        if not rb['ok']:
+                            continue
+                        rc, c2 = call(lambda: copy.deepcopy(e2))
+                        if not rc['ok']:
+                            continue
+                        x, other = (c2, e2) if target == 'copy' else (e2, c2)
+                        fn = self.mutation(x, md)
+                        if fn is None:
+                            continue
+                        tb = self.verdict(other)
                         rm, _ = call(fn)
                         ta = self.verdict(other)
                         self.emit(op='mutate', elem=name, variant=desc + '|' + md, target=target, res=rm, t0=tb, t1=ta, tw=i1)
+
+    def mutation(self, x, md):
+        """a thunk performing mutation md on tree x, or None when it does not apply"""
+        F, J = self.F, self.F.J
+        t = J['elemtype'].get(x.name)
+        decl = J['attrs'].get(t, []) if J['elemkind'].get(x.name) == 'complex' else []
+        plain = [(an, at) for (an, at, rq) in decl if ':' not in an and an != 'name']
+        present = [(an, at) for (an, at) in plain if an in x.attributes]
+        absent = [(an, at) for (an, at) in plain if an not in x.attributes]
+        kids = x.get_children(ordered=False)
+
+        def other_value(at, cur):
+            d = J['st'][at]
+            if d['hasEnum'] and len(d['enum']) > 1:
+                return d['enum'][-1] if cur != d['enum'][-1] else d['enum'][0]
+            v = F.value(at)
+            if isinstance(v, int) and not isinstance(v, bool) and not d['hasMax']:
+                return v + 1
+            if isinstance(v, str) and not d['hasEnum'] and not d['pats'] and d['prim'] == 'string':
+                return v + 'y'
+            return v
+        if md == 'unset-present-attribute' and present:
+            return lambda: setattr(x, present[0][0].replace('-', '_'), None)
+        if md == 'overwrite-present-attribute' and present:
+            an, at = present[0]
+            return lambda: setattr(x, an.replace('-', '_'), other_value(at, x.attributes[an]))
+        if md == 'set-new-attribute' and absent:
+            an, at = absent[0]
+            return lambda: setattr(x, an.replace('-', '_'), F.value(at))
+        if md == 'set-value':
+            st = (J['sbase'].get(t) if J['elemkind'].get(x.name) == 'complex' else t)
+            if st:
+                return lambda: setattr(x, 'value_', other_value(st, x.value_))
+        if md == 'remove-child' and kids:
+            return lambda: x.remove(kids[0])
+        if md == 'add-child' and kids:
+            return lambda: x.add_child(F.mk(kids[-1].name))
+        if md in ('child-set-attribute', 'child-set-value', 'grandchild-remove'):
+            for k in kids:
+                sub = self.mutation(k, {'child-set-attribute': 'set-new-attribute', 'child-set-value': 'set-value',
+                                        'grandchild-remove': 'remove-child'}[md])
+                if sub is not None:
+                    return sub
+        return None
+
+    # ---- C16: a subtree serialises to the same content alone as inside its parent, before and after it is mutated -------
+    def nested_for(self, name):
+        F, B, J = self.F, self.B, self.F.J
+        par = B.parents().get(name)
+        if not par:
+            return
+        pt = J['elemtype'][par]
+        w = F.word_through(pt, name)
+        if not w:
+            return
+
+        def build():
+            P = F.mk(par, bare=True)
+            E = None
+            for k in w:
+                c = F.mk(k)
+                P.add_child(c)
+                if k == name and E is None:
+                    E = c
+            return P, E
+
+        def snapshot(P, variant, step):
+            r, text = call(lambda: P.to_string())
+            inside, alone = [], []
+            if r['ok']:
+                inside = [SD.infoset(c) for c in ET.fromstring(text)]
+                for c in P.get_children():
+                    rc, tc = call(lambda c=c: c.to_string())
+                    alone.append(SD.infoset(ET.fromstring(tc)) if rc['ok'] else dict(EMPTY))
+            self.emit(op='nested', elem=name, variant=variant + '|' + step, target=par, res=r, inside=inside, alone=alone)
+        for md in ('set-new-attribute', 'unset-present-attribute', 'overwrite-present-attribute', 'set-value', 'add-child', 'remove-child'):
+            for mid in ('', 'child-to_string'):
+                rb, pe = call(build)
+                if not rb['ok'] or pe[1] is None:
+                    return
+                P, E = pe
+                fn = self.mutation(E, md)
+                if fn is None:
+                    break
+                variant = md + ('+' + mid if mid else '')
+                snapshot(P, variant, 'before')
+                rm, _ = call(fn)
+                if mid:
+                    call(lambda: E.to_string())
+                snapshot(P, variant, 'after')
 
 
 def main():
@@ -296,6 +390,8 @@ def main():
             D.trips_for(name)
         if buildable and 'copy' in job['ops']:
             D.copies_for(name)
+        if buildable and 'nested' in job['ops']:
+            D.nested_for(name)
         if 'parse' in job['ops']:
             t = F.J['elemtype'][name]
             words = job['cover'].get(t, [[]])[:job['maxwords']]
